@@ -161,6 +161,7 @@ class sptensor:
                 f"{tuple(np.max(subs, axis=0) + 1)}"
             )
         else:
+            assert vals.size == 0, "Number of subscripts and values must be equal"
             # In case user provides an empty array in weird format
             subs = np.array([], ndmin=2, dtype=int)
 
